@@ -122,7 +122,8 @@ theorem read7_write7_aux (f : Nat) : ∀ (shl val result : Nat), shl + 7 * (f + 
     simp only [hu]
     have h1 : ¬ val ≥ 128 := by omega
     have h2 : val % 128 = val := by omega
-    simp only [h1, if_false, h2, show (28 : Nat) < 32 by omega, if_true]
+    have hg : ¬ (True ∧ val ≥ 16) := by omega
+    simp only [h2, hg, h1, if_false, show (28 : Nat) < 32 by omega, if_true]
     rw [or_shift_eq_add _ _ _ hr]
     have : (result + val * 2 ^ 28) % 4294967296 = result + val * 2 ^ 28 := by omega
     rw [this]; exact Reads.pure _
@@ -138,7 +139,8 @@ theorem read7_write7_aux (f : Nat) : ∀ (shl val result : Nat), shl + 7 * (f + 
       rw [show read7Aux (f + 1 + 1) shl result = P.bind (readN 1) _ from rfl]
       apply Reads.readByte
       have hu : leNat [UInt8.ofNat (val % 128 + 128)] = val % 128 + 128 := by rw [leNat_single]; omega
-      simp only [hu, hshl, if_true]
+      have hg : ¬ (shl = 28 ∧ (val % 128 + 128) % 128 ≥ 16) := by omega
+      simp only [hu, hg, if_false, hshl, if_true]
       have h1 : val % 128 + 128 ≥ 128 := by omega
       have h2 : (val % 128 + 128) % 128 = val % 128 := by omega
       have h3 : ¬ (f + 1 = 0) := by omega
@@ -166,7 +168,8 @@ theorem read7_write7_aux (f : Nat) : ∀ (shl val result : Nat), shl + 7 * (f + 
       rw [show read7Aux (f + 1 + 1) shl result = P.bind (readN 1) _ from rfl]
       apply Reads.readByte
       have hu : leNat [UInt8.ofNat val] = val := by rw [leNat_single]; omega
-      simp only [hu, hshl, if_true]
+      have hg : ¬ (shl = 28 ∧ val % 128 ≥ 16) := by omega
+      simp only [hu, hg, if_false, hshl, if_true]
       have h1 : ¬ val ≥ 128 := by omega
       have h2 : val % 128 = val := by omega
       simp only [h1, if_false, h2]
